@@ -99,6 +99,7 @@ PROP = {
         "Wm.Decor.settle_outer_settles_inner",
         "Wm.Decor.transform_sub_transparent",
         "Wm.Decor.sub_error_close_pass",
+        "Wm.Decor.close_sub_each_call_passes",
         "Wm.Decor.transform_transparent",
         "Wm.Decor.publish_marked_no_obs",
         "Wm.Decor.metrics_publish_once_partial",
@@ -107,6 +108,8 @@ PROP = {
         "Wm.Decor.republish_undercount_witness",
         "Wm.Decor.empty_batch_witness",
         "Wm.Decor.metrics_subscribe_once",
+        "Wm.Decor.metrics_subscribe_counts_after_cancel",
+        "Wm.Decor.cancel_aware_watcher_undercount_witness",
         "Wm.Decor.metrics_subscribe_none",
         "Wm.Decor.metrics_subscribe_once_run",
         "Wm.Decor.handler_label",
@@ -140,8 +143,10 @@ PROP = {
             "(valid, malformed, empty), context For/Until with past, zero, 1 ns, fractional, days and ~250 years, 1..4 Publish calls with "
             "inner failure scripts, Close (with error); 10% of the random cases re-publish the same message objects and 10% publish an empty "
             "batch (finding D15, reported as KNOWN-FINDING). sub: every subscriber stack of depth 0..3 over {transform a, transform b, "
-            "metrics} x 4 programs (ack/nack/late ack, Close error, no message, Subscribe error) + random cases incl. Close with unread "
-            "messages. rt: a real message.Router with one handler, publisher/subscriber decorated 0..3 times with the metrics decorators, "
+            "metrics} x 8 programs (ack/nack/late ack, Close error, no message, Subscribe error, ack and nack AFTER the subscription context was "
+            "cancelled next to ones settled while subscribed, the wrapped Close failing and the caller retrying: 2-3 Close calls with scripted "
+            "inner errors) + random cases incl. Close with unread messages, 1-3 Close calls, settle-after-cancel; the scripted subscriber gives "
+            "every message a context derived from the subscription context and cancels it on Close, like the real subscribers. rt: a real message.Router with one handler, publisher/subscriber decorated 0..3 times with the metrics decorators, "
             "middleware once (in 1 of 8 random cases twice = finding handler-middleware-applied-twice, reported as KNOWN-FINDING; in 1 of 16 "
             "not at all = outside the property, model conformance only), handler outcome sequences over success "
             "(0-2 outputs) / error / panic / pass-through (the handler returns the CONSUMED message object itself, alone or between 0-2 "
